@@ -705,7 +705,9 @@ func (e *Engine) findIndicesBidirectionalDFACore(haystack []byte, at int, state 
 	// Reverse DFA → match start
 	start := e.reverseDFA.SearchReverse(state.revDFACache, haystack, at, end)
 	if start < 0 {
-		return -1, -1, false
+		// The forward DFA found a match, so a negative start only means that the
+		// reverse DFA gave up (state or determinisation limit): ask the NFA engine.
+		return state.pikevm.SearchAt(haystack, at)
 	}
 	return start, end, true
 }
@@ -732,7 +734,9 @@ func (e *Engine) findIndicesBidirectionalDFALongest(haystack []byte, at int, exi
 	}
 	start := e.reverseDFA.SearchReverse(state.revDFACache, haystack, at, end)
 	if start < 0 {
-		return -1, -1, false // Reverse DFA failed (cache full)
+		// Reverse DFA failed (cache full or limit): the match found by the forward
+		// DFA still exists, so ask the NFA engine instead of reporting no match.
+		return state.pikevm.SearchAt(haystack, at)
 	}
 	return start, end, true
 }
